@@ -128,6 +128,28 @@ def cases(ctx, tier):
             out.append(('mpn_redc_1 %x %s %s' % (n, hx(t), hx(m)), 'redc_1'))
     return out
 
+def redc_n_cases(ctx, tier):
+    rng = ctx.rng('redc_n'); quick = tier == 'quick'; out = []
+    # the n-limb REDC (odd parts of REDC_1_TO_REDC_N_THRESHOLD limbs and more) called directly: operands made of long runs of one and
+    # zero bits, sparse, all ones, B^n - c; the product q*m is formed modulo B^rn - 1 and unwrapped with a borrow
+    T = getattr(ctx, 'thr', None) or gen_tables.main()[0]
+    rn0 = max(9, T.get('REDC_1_TO_REDC_N_THRESHOLD') or T.get('REDC_2_TO_REDC_N_THRESHOLD') or 100)
+    for _ in range(320 if quick else 5000):
+        n = rng.choice([9, 16, 33, rn0, rn0 + 1, rn0 + 28, 127, 128, 129, 200, 256, 257]) if rng.random() < 0.5 else rng.randrange(9, 270)
+        shape = rng.choice(['runs', 'runs', 'runs', 'sparse', 'ones', 'uniform', 'pow2m1'])
+        k = rng.random()
+        if k < 0.6: m = nonzero_top(rng, n, shape) | 1
+        elif k < 0.8: m = (1 << (64 * n)) - (rng.choice([1, 3, rng.getrandbits(64), rng.getrandbits(10)]) | 1)
+        else: m = ((1 << (64 * n - rng.randrange(0, 64))) - 1) | (1 << (64 * n - 1))
+        Bn = 1 << (64 * n)
+        hi = limbs_value(rng, n, rng.choice(['runs', 'runs', 'sparse', 'uniform', 'ones'])) % m
+        lo = limbs_value(rng, n, rng.choice(['runs', 'runs', 'sparse', 'uniform', 'ones', 'zero']))
+        if rng.random() < 0.3:
+            x = limbs_value(rng, n, 'runs') % m; lo = (x * x) % Bn; hi = (x * x) >> (64 * n)
+            if hi >= m: hi %= m
+        out.append((n, hi * Bn + lo, m))
+    return out
+
 def big(ctx, tier):
     rng = ctx.rng('big')
     T = getattr(ctx, 'thr', None) or gen_tables.main()[0]
@@ -178,4 +200,23 @@ def extra(ctx):
     for ln, o, why in bad[:3]:
         ev.append({'kind': 'large-powm-certificate', 'cases': [ln[:200000]], 'implementation_output': o[:3000], 'note': why, 'key': ln[:200],
                    'theorem': 'C08_powm (result = b^e mod |m| in [0,|m|)) via the Chinese remainder theorem over pairwise coprime factors'})
+    # the n-limb REDC called directly, decided by the model-evaluated certificate R * B^n = T (mod M), 0 <= R < M
+    rc = redc_n_cases(ctx, ctx.tier)
+    rl = ['mpn_redc_n %x %s %s' % (n, hx(t), hx(m)) for n, t, m in rc]
+    ro = vlib.run_robust(vlib.impl_cmd(ctx.impl), rl, timeout=1500, died='CRASH')
+    cl = []; keep = []
+    for (n, t, m), ln, o in zip(rc, rl, ro):
+        tk = o.split()
+        if len(tk) != 1 or not all(ch in '0123456789abcdef' for ch in tk[0]):
+            ev.append({'kind': 'redc_n', 'cases': [ln[:100000]], 'implementation_output': o[:2000], 'note': 'crash, red zone or malformed output', 'key': 'redc_n crash', 'theorem': 'C08 (REDC returns T * B^-n mod M)'}); continue
+        cl.append('redcncheck %x %s %s %s' % (n, hx(t), hx(m), tk[0])); keep.append((ln, o))
+    mo = vlib.run_robust(vlib.model_cmd(), cl, timeout=1500, died='MODEL-DIED') if cl else []
+    nrej = 0
+    for (ln, o), mres in zip(keep, mo):
+        if vlib.timed_out(ctx, mres) or mres.strip() == '1': continue
+        nrej += 1
+        if nrej <= 2:
+            ev.append({'kind': 'redc_n', 'cases': [ln[:100000]], 'implementation_output': o[:3000], 'note': 'the model rejects the REDC certificate (%s): the result is not the canonical residue T * B^-n mod M' % mres[:30], 'key': ln[:200],
+                       'theorem': 'C08 (REDC returns T * B^-n mod M, the precondition of the window loop of mpn_powm)'})
+    ctx.extra_cov['redc_n_direct_certified'] = len(cl) - nrej; ctx.extra_cov['redc_n_direct_cases'] = len(rc)
     ctx.extra_violations = ev
